@@ -8,7 +8,7 @@ SCOPES = {
     "C01": [("ind:ALL", 400, 40), ("amorph:ALL", 150, 40), ("manager.collapse", 100, 50), ("manager.fill", 60, 50)],
     "C02": [("ind:ALL", 300, 40), ("amorph:ALL", 150, 40), ("analysis:ALL", 100, 24), ("manager.collapse", 100, 50)],
     "C04": [(MA, 300, 50), ("hexital", 100, 40), ("access", 60, 30), ("arith", 40, 60)],
-    "C05": [(VOL, 400, 50), ("analysis:highest,lowest", 60, 24), ("arith", 40, 60)],
+    "C05": [(VOL, 400, 50), ("ind:SUPERTREND", 60, 50), ("analysis:highest,lowest", 60, 24), ("arith", 40, 60)],
     "C06": [(MOM, 400, 50), ("arith", 40, 60)],
     "C07": [("ind:ALL", 300, 40), ("amorph:ALL", 100, 40)],
     "C08": [("hexital", 200, 40), ("hexital.ha", 60, 40), ("hexital.life", 60, 40), ("ind:ALL", 100, 40), ("settings", 150, 12)],
@@ -16,8 +16,8 @@ SCOPES = {
     "C10": [("ind:ALL", 300, 50), ("arith", 40, 60)],
     "C13": [("hexital", 300, 40)],
     "C14": [("ind:ALL", 300, 40), ("amorph:ALL", 60, 30), ("hexital", 150, 40), ("hexital.ha", 100, 40), ("hexital.life", 60, 40)],
-    "C16": [("analysis:ALL", 200, 24), ("amorph:ALL", 200, 40)],
-    "C17": [("analysis:ALL", 300, 24)],
+    "C16": [("analysis:ALL", 200, 24), ("analysis.utils", 60, 24), ("amorph:ALL", 200, 40)],
+    "C17": [("analysis:ALL", 300, 24), ("analysis.utils", 60, 24)],
     "C19": [("access", 150, 30), ("hexital.access", 150, 30), ("hexital", 100, 40), ("manager.malformed", 60, 30)],
     "C20": [("access", 200, 30), ("hexital.access", 200, 30)],
 }
